@@ -366,6 +366,14 @@ def run(ctx):
                 cls = "contains-z3-escape-sequence" if 92 in t else "non-printable" if any(c < 32 or c > 126 for c in t) else "plain"
                 ctx.violation("C03/StringV-literal/%s" % cls, "literal %s reaches Z3 as %s" % (show(t), show(li) if isinstance(li, tuple) and li and isinstance(li[0], int) else li),
                               {"kind": "literal-in", "s": list(t)})
+        if not sur and not any(c > F.Z3_MAX_CHAR for c in t):
+            lr = z.literal_in_raw(t)
+            ctx.count()
+            if lr != t:
+                ctx.violation("C03/python-str-value/%s" % ("contains-z3-escape-sequence" if 92 in t else "other"),
+                              "the Python str %s handed to the Z3 backend (solution(), blocking clause of eval) reaches Z3 as %s" % (
+                                  show(t), show(lr) if isinstance(lr, tuple) and lr and isinstance(lr[0], int) else lr),
+                              {"kind": "literal-in-raw", "s": list(t)})
         lo = z.literal_out(t)
         ctx.count()
         if lo != t:
@@ -426,6 +434,21 @@ def run(ctx):
         ctx.count()
         if r:
             ctx.violation("C03/%s/end-to-end-solver/%s" % (op, r[0]), r[1], {"kind": "e2e", "op": op, "args": [list(v) if isinstance(v, tuple) else v for v in a]})
+    # a pinned string has exactly one solution, and the plain-str form of the value is accepted as that solution
+    for t in [F.cps("\\u{41}"), F.cps("\\u0041"), F.cps("a\\u{5c}"), (92,), (0, 122), F.cps("plain")]:
+        try:
+            x = claripy.StringS("c03_pin")
+            s = claripy.SolverCacheless()
+            s.add(x == claripy.StringV(F.to_str(t)))
+            vals = s.eval(x, 3)
+            ok_sol = s.solution(x, F.to_str(t))
+            ctx.count()
+            if [F.cps(v) for v in vals] != [t] or not ok_sol:
+                ctx.violation("C03/python-str-value/solver-%s" % ("eval-repeats" if len(vals) != 1 else "solution-rejected" if not ok_sol else "eval-differs"),
+                              "x == %s: eval(x, 3) = %r, solution(x, <the same text as str>) = %s" % (show(t), vals, ok_sol),
+                              {"kind": "pinned-str", "s": list(t)})
+        except Exception as ex:  # noqa
+            ctx.violation("C03/python-str-value/raised", "x == %s: %s: %s" % (show(t), type(ex).__name__, str(ex)[:100]), {"kind": "pinned-str", "s": list(t)})
     ctx.sample({"case": F.fmt_case(*cases[len(cases) // 2]), "model": F.fmt_res(F.real_concrete(*cases[len(cases) // 2]))})
     ctx.sample({"literal": list(F.cps("\\u{48}")), "reaches_z3_as": list(z.literal_in(F.cps("\\u{48}")))})
     ctx.sample({"z3_value": [0, 122, 0x1F600], "extracted": list(z.literal_out((0, 122, 0x1F600)))})
@@ -493,6 +516,18 @@ def replay(ctx, obj):
         rf = F.real_fold(r["op"], (t, t), annotate=make_annotation())
         print("%s on equal strings %s with an annotation on one side folds to %s" % (r["op"], show(t), F.fmt_res(rf)))
         return 0 if rf == ("b", r["op"] == "__eq__") else 1
+    if kind == "literal-in-raw":
+        lr = z.literal_in_raw(t)
+        print("python str %s reaches Z3 as %s" % (show(t), lr))
+        return 0 if lr == t else 1
+    if kind == "pinned-str":
+        import claripy
+        x = claripy.StringS("c03_pin")
+        s = claripy.SolverCacheless()
+        s.add(x == claripy.StringV(F.to_str(t)))
+        vals, ok_sol = s.eval(x, 3), s.solution(x, F.to_str(t))
+        print("x == %s: eval(x,3)=%r solution(str)=%s" % (show(t), vals, ok_sol))
+        return 0 if [F.cps(v) for v in vals] == [t] and ok_sol else 1
     if kind == "literal-in":
         li = z.literal_in(t)
         print("literal %s reaches Z3 as %s" % (show(t), li))
